@@ -349,6 +349,8 @@ def run(ctx):
             'interleavings were not produced')
     if ctx.counters.get('writes_checked', 0) < 20:
         ctx.inconclusive_because('too few writes checked')
+    if ctx.counters.get('write_faults_injected', 0) == 0:
+        ctx.inconclusive_because('no failing rewrite was injected')
     if ctx.counters.get('runs_failed', 0) > ctx.counters.get('runs', 1) // 4:
         ctx.inconclusive_because('too many runs failed for other reasons')
     ctx.judge_watchdog('runs')
